@@ -1,6 +1,7 @@
 """C11 - tensor operators agree with element-wise and matrix arithmetic (DESIGN.md section 3, C11)."""
 import sys
 from ..common import run_check
+from ..family import operator_problems, sweep
 from ..srules import axis, tensorapi
 from ..srules.core import SourceIndex
 
@@ -16,12 +17,23 @@ def main(ctx):
         "format must follow the documented rule; axis typing of the @ format rule with the "
         "order <= 2 side condition."
     )
-    ctx.assumptions = ["numerical values are C01's concern"]
+    ctx.explanation += (
+        " Engine K on the kernels the operators request (element-wise + - * of order 1..3 over every pair of operand formats "
+        "and all mode orderings incl. the 3-cycles, tensor-with-number forms, the four @ cases; output format by the documented "
+        "rule): K-addr/K-sum/K-dense/K-poly/K-complete/lattice-order/K-cover as in C01/C02, so a generator defect that only "
+        "shows on operator-shaped problems is reported here."
+    )
+    ctx.assumptions = ["rounding and accumulation order are not decided; addressing, monomials and coverage of the operator kernels are"]
     ix = SourceIndex(ctx.src)
     tensorapi.rule_dunders(ctx, ix)
     tensorapi.rule_operator_semantics(ctx, ix)
     ctx.rule("C11.axis-typing", "format rule of @ indexes modes in level space (order <= 2 exception checked)", min_instances=4)
     axis.run_axis(ctx, ix, "C11.axis-typing", modules=["tensora.tensor"], exceptions=tensorapi.axis_exceptions())
+    problems = operator_problems(ctx.tier, ctx.seed)
+    totals = sweep(ctx, ["addr.k_addr", "addr.k_sum", "addr.k_dense", "addr.k_poly", "addr.k_complete", "addr.lattice_order", "cover.k_cover"], problems=problems)
+    ctx.extra["operator_family"] = {k: (v if not isinstance(v, list) else len(v)) for k, v in totals.items()}
+    ctx.rule("C01.K-addr", min_instances=600)
+    ctx.rule("C01.K-poly", min_instances=600)
 
 
 if __name__ == "__main__":
